@@ -29,7 +29,7 @@ SHARD_TIMEOUT = {"quick": 600, "thorough": 3000}
 def plan(tier, seed):
     if tier == "quick":
         return [{"tier": tier, "seed": seed, "shard": i, "nshards": 12, "budget": 700, "subprocess": True} for i in range(12)]
-    return [{"tier": tier, "seed": seed, "shard": i, "nshards": 32, "budget": 9000, "rounds": 12, "subprocess": True} for i in range(32)]
+    return [{"tier": tier, "seed": seed, "shard": i, "nshards": 32, "budget": 20000, "rounds": 100, "subprocess": True} for i in range(32)]
 
 
 class Session(object):
